@@ -589,9 +589,7 @@ printf("debug> macros_parse() name_test='%s' %d\n", name_test, index);
 printf("debug> Adding macro '%s'\n", macro);
 #endif
 
-  macros_append(asm_context, name, macro, param_count);
-
-  return 0;
+  return macros_append(asm_context, name, macro, param_count);
 }
 
 char *macros_expand_params(
